@@ -407,7 +407,7 @@ C10_CLAUSES = {1: "holdings below recorded stakes + unreleased claims", 2: "fund
                11: "claim payout differs from the caller's matured claims", 12: "a call that may not touch stakes/claims/holdings did"}
 C14_CLAUSES = {1: "admin, hooks or group membership changed other than by the current admin's own call",
                2: "a failed call emitted messages", 3: "hook notification from a call that changes no membership",
-               4: "a registered hook was not notified of a change", 5: "notifications are not exactly one per registered hook, in order",
+               4: "a registered hook was not notified of a change", 5: "notifications are not exactly one per registered hook",
                6: "hooks received different payloads", 7: "a diff entry reports a wrong previous weight",
                8: "the diff list does not explain the observed change of weights", 9: "cw4-stake: not exactly one real change reported"}
 
